@@ -36,7 +36,8 @@ class TemperatureFile(TemperatureArray):
                              )
             temperature_arr = arr[:]*convertT
 
-        super().__init__(tp_array=temperature_arr, p_points=pressure_arr)
+        super().__init__(tp_array=temperature_arr, p_points=pressure_arr,
+                         reverse=reverse)
 
 
     @classmethod
